@@ -188,6 +188,14 @@ def provenance(run, rng, n):
             ng = rng.randint(2, 4)
             lab = np.array([[rng.randrange(-1, ng) for _ in range(c)] for _ in range(r)])
             chunks = (G.random_composition(rng, r, 3), G.random_composition(rng, c, 3))
+        elif rng.random() < 0.45:
+            # many blocks, each holding a random subset of 2-3 labels: cohorts whose block lists are long, non-contiguous
+            # and unevenly spaced (e.g. [0, 2, 3, 6])
+            nb = rng.randint(6, 10)
+            ng = rng.randint(2, 3)
+            per_block = [[g for g in range(ng) if rng.random() < 0.5] or [rng.randrange(ng)] for _ in range(nb)]
+            lab = np.array([g for b in per_block for g in b])
+            chunks = (tuple(len(b) for b in per_block),)
         else:
             m = rng.randint(3, 14)
             ng = rng.randint(2, 5)
@@ -243,6 +251,47 @@ def provenance(run, rng, n):
     run.sample({"provenance_case": {"labels": lab.tolist(), "chunks": [list(c) for c in chunks]}})
 
 
+def normalize_index_cases(run, rng, nmax, nrandom):
+    """_normalize_indexes (which blocks feed a cohort): the index it returns must select, on every axis, exactly the
+    blocks of the request - ALL non-empty subsets of up to nmax blocks in 1-D, random subsets of 2-D / 3-D block grids"""
+    import numpy as np
+
+    import flox.core as fc
+
+    def check(flat, blkshape, ndim):
+        keys = np.arange(int(np.prod(blkshape))).reshape(blkshape)
+        keys = keys.reshape((1,) * (ndim - len(blkshape)) + tuple(blkshape))
+        try:
+            index = fc._normalize_indexes(ndim, list(flat), tuple(blkshape))
+            index = tuple(slice(k, k + 1) if isinstance(k, (int, np.integer)) else k for k in index)
+            got = set(np.asarray(keys[index]).reshape(-1).tolist())
+        except Exception as e:  # noqa: BLE001
+            got = f"raised {type(e).__name__}: {e}"
+        per_axis = [sorted(set(a.tolist())) for a in np.unravel_index(list(flat), blkshape)]
+        want = set(np.ravel_multi_index(np.ix_(*per_axis), blkshape).reshape(-1).tolist())
+        run.count(f"ni|{list(flat)}|{blkshape}|{ndim}", len(flat) > 2)
+        if got != want:
+            run.violation({"property": "C09", "kind": "_normalize_indexes selects the wrong blocks for a cohort",
+                           "flatblocks": [int(x) for x in flat], "blkshape": list(blkshape), "ndim": ndim,
+                           "selected": sorted(got) if isinstance(got, set) else got, "wanted": sorted(want),
+                           "how_to_run": "flox.core._normalize_indexes(ndim, flatblocks, blkshape) applied to the block-key array"}, tag="nidx")
+            return False
+        return True
+
+    for n in range(1, nmax + 1):
+        for mask in range(1, 2 ** n):
+            flat = [i for i in range(n) if mask >> i & 1]
+            if not check(flat, (n,), rng.choice([1, 2])):
+                return
+    for _ in range(nrandom):
+        shape = tuple(rng.randint(1, 5) for _ in range(rng.choice([2, 2, 3])))
+        total = int(np.prod(shape))
+        flat = sorted(rng.sample(range(total), rng.randint(1, total)))
+        if not check(flat, shape, len(shape) + rng.choice([0, 1])):
+            return
+    run.sample({"normalize_indexes_case": {"flatblocks": flat, "blkshape": list(shape)}})
+
+
 def run(run: C.Run):
     rng = random.Random(run.seed)
     P.front(run, translators=())
@@ -259,6 +308,7 @@ def run(run: C.Run):
     coq = planner_cases(run, cases)
     eval_planner(run, coq)
     provenance(run, rng, 1500 if thorough else 150)
+    normalize_index_cases(run, rng, 11 if thorough else 9, 3000 if thorough else 400)
     if any(not o[1] for o in run.obligations) and not run.violations:
         run.violation({"property": "C09", "kind": "proof obligation / correspondence no longer checks",
                        "failed": P.failed_obligations(run)}, nofail=True, tag="obligation")
